@@ -1176,6 +1176,58 @@ impl PeerSim {
         SegEvent::Data { seq, len, fin, ack, wnd, rst, place, ackc }
     }
 
+    /// C13 (seeded change C13-r10-1): a sender facing a peer whose window is closed and which then
+    /// falls silent, driven the way an event loop does it - ask poll_at, sleep, poll - through
+    /// `Host::poll`, so that the probe of sim/hostprobe.rs (early polls between two deadlines) rides
+    /// along.  With a user timeout set, the abort (RST) competes with the backed-off zero-window
+    /// probes; with keep-alive set, so do the keep-alive segments.  Returns the number of timer polls.
+    pub fn run_silent_zero_window(&mut self, rng: &mut Rng) -> u64 {
+        self.time_and_egress(0);
+        if self.cfg.active {
+            let a = self.iss.map(|i| i.wrapping_add(1));
+            self.inject(SegEvent::Syn { ack: a, data: 0 });
+        } else {
+            self.inject(SegEvent::Syn { ack: None, data: 0 });
+        }
+        let first_wnd: u16 = if rng.bool() { 0 } else { rng.range(1, 600) as u16 };
+        if let Some(iss) = self.iss {
+            let rn = self.cfg.irs.wrapping_add(1);
+            self.inject(SegEvent::Data { seq: rn, len: 0, fin: false, ack: Some(iss.wrapping_add(1)), wnd: first_wnd, rst: false, place: "in-order", ackc: "iss+1" });
+        }
+        for _ in 0..rng.urange(1, 4) {
+            self.api_send(rng);
+        }
+        // the peer answers the first few timer segments with a closed window, then never again
+        let mut answers = rng.urange(0, 4);
+        let mut polls = 0u64;
+        for _ in 0..60 {
+            let d = match self.host.poll_at(self.now) {
+                Some(d) => d,
+                None => break,
+            };
+            // mostly exactly at the deadline; now and then the loop oversleeps
+            let late = *rng.pick(&[0i64, 0, 0, 1, 1_000, 700_000]);
+            self.now = self.now.max(d) + late;
+            if self.now > 3_600_000_000 {
+                break;
+            }
+            let out = self.host.poll(self.now);
+            polls += 1;
+            let sent = !out.tx.is_empty();
+            self.on_emitted(out.tx);
+            if sent && answers > 0 && !matches!(self.state(), State::Closed) {
+                answers -= 1;
+                let rn = self.cfg.irs.wrapping_add(1);
+                let ack = if self.peer_acked_max != 0 && rng.bool() { self.peer_acked_max } else { self.snd_max };
+                self.inject(SegEvent::Data { seq: rn, len: 0, fin: false, ack: Some(ack), wnd: 0, rst: false, place: "in-order", ackc: "zero-window" });
+                if rng.chance(1, 3) {
+                    self.api_send(rng);
+                }
+            }
+        }
+        polls
+    }
+
     // ------------------------------------------------------------ main loop
     pub fn run(&mut self, rng: &mut Rng) {
         // ---- handshake prefix (sometimes left incomplete so that handshake states are attacked too)
